@@ -1,0 +1,8 @@
+//go:build !verif
+
+// Package verifhook provides observation points for external verification
+// harnesses. Without the "verif" build tag every function is an empty stub.
+package verifhook
+
+// Point is a no-op unless built with the verif tag.
+func Point(name string, arg any) {}
